@@ -43,7 +43,9 @@ long mi_option_get(mi_option_t o) {
   if (o == mi_option_arena_eager_commit) return opt_eager_commit;
   return nd_long();
 }
+static bool opt_visit_abandoned; static mi_subproc_t SPV;
 bool mi_option_is_enabled(mi_option_t o) {
+  if (o == mi_option_visit_abandoned) return opt_visit_abandoned;
   if (o == mi_option_disallow_os_alloc) return opt_disallow_os;
   if (o == mi_option_disallow_arena_alloc) return opt_disallow_arena;
   return nd_bool();
@@ -494,6 +496,30 @@ void h_abandon_os(void) {
     WITNESS("not listed");
 #endif
   }
+}
+#endif
+
+#ifdef HARNESS_h_abandoned_visit
+/* C12/C09: mi_abandoned_visit_blocks: every abandoned segment taken for visiting is put back as abandoned, also when the
+   visitor stops the walk; the result says whether the walk completed.  Cursor, marker and per-segment walk are stubs. */
+#define NVS 3
+static uint64_t VSEG[NVS][8];
+static int v_next, v_avail, v_visited, v_stop_at; static uint8_t v_state[NVS];      /* 0 abandoned, 1 taken, 2 put back */
+void stub_cursor_init(mi_heap_t* heap, mi_subproc_t* subproc, bool visit_all, mi_arena_field_cursor_t* current) { CHECK(visit_all, "visiting must see all abandoned segments (blocking cursor)"); v_next = 0; }
+void stub_cursor_done(mi_arena_field_cursor_t* current) { }
+mi_segment_t* stub_clear_abandoned_next(mi_arena_field_cursor_t* previous) { if (v_next >= v_avail) return NULL; v_state[v_next] = 1; return (mi_segment_t*)&VSEG[v_next++][0]; }
+void stub_mark_abandoned(mi_segment_t* segment) { for (int i = 0; i < NVS; i++) if ((void*)segment == (void*)&VSEG[i][0]) { CHECK(v_state[i] == 1, "put back exactly the segments that were taken"); v_state[i] = 2; } }
+bool _mi_segment_visit_blocks(mi_segment_t* segment, int heap_tag, bool visit_blocks, mi_block_visit_fun* visitor, void* arg) { v_visited++; return !(v_stop_at > 0 && v_visited >= v_stop_at); }
+mi_subproc_t* _mi_subproc_from_id(mi_subproc_id_t subproc_id) { return &SPV; }
+void h_abandoned_visit(void) {
+  v_avail = nd_u8() % (NVS + 1); v_stop_at = nd_u8() % 4;
+  bool enabled = nd_bool();
+  opt_visit_abandoned = enabled;
+  bool ok = mi_abandoned_visit_blocks(NULL, 0, true, NULL, NULL);
+  if (!enabled) { CHECK(!ok && v_visited == 0, "visiting abandoned blocks needs the option"); WITNESS("disabled"); return; }
+  for (int i = 0; i < NVS; i++) CHECK(v_state[i] != 1, "C09/C12: every abandoned segment taken by the walk is abandoned again afterwards (also when the visitor stops the walk), so later walks and reclaims still see it");
+  if (v_stop_at == 0 || v_stop_at > v_avail) { CHECK(ok && v_visited == v_avail, "C12: a complete walk visits every abandoned segment once"); WITNESS("complete"); }
+  else { CHECK(!ok && v_visited == v_stop_at, "C12: returning false from the visitor stops the walk"); WITNESS("stopped"); }
 }
 #endif
 
